@@ -700,3 +700,89 @@ Proof.
     apply (fallback_unique _ c (p_imports p)); [exact HF|].
     unfold imports_iter in Himp. apply (proj1 (Ho1 _ _)) in Himp. apply imp_extend_in in Himp as [[]|Himp]. exact Himp.
 Qed.
+
+(* ====================================================================================== *)
+(* (6) the generated files                                                                  *)
+(* ====================================================================================== *)
+Section Gen.
+Context {St : Type}.
+Variable gen : St -> str -> scoped -> parsed -> outcome (str * St).
+(* a generator that looks at the four item lists of the crate's data only (not at the type table, the import set,
+   the recorded errors) *)
+Definition reads_items : Prop := forall st c im p q, same_items p q -> gen st c im p = gen st c im q.
+
+Lemma generate_crates_same plan1 plan2 : reads_items -> Forall2 plan_same plan1 plan2 ->
+  forall st, generate_crates gen st plan1 = generate_crates gen st plan2.
+Proof.
+  intros Hr. induction 1 as [|p q r1 r2 (HF & HC & HM & HI) _ IH]; intros st; [reflexivity|].
+  cbn [generate_crates]. rewrite HF, HC, HM, (Hr st (op_crate q) (op_imports q) _ _ HI).
+  destruct (gen st (op_crate q) (op_imports q) (op_data q)) as [[text st']| |]; [|reflexivity|reflexivity]. now rewrite IH.
+Qed.
+End Gen.
+
+From TS Require Import Model.Lang.TypeScript Model.Lang.Kotlin Model.Lang.Swift Model.Lang.Scala Model.Lang.Go Model.Lang.Python.
+
+Lemma ts_multi_reads_items uc cfg st im : forall p q, same_items p q -> ts_generate_multi uc cfg st im p = ts_generate_multi uc cfg st im q.
+Proof. only_items. Qed.
+Lemma kt_multi_reads_items uc cfg c im : forall p q, same_items p q -> kt_generate_multi uc cfg c im p = kt_generate_multi uc cfg c im q.
+Proof. only_items. Qed.
+Lemma sw_multi_reads_items uc cfg st : forall p q, same_items p q -> sw_generate_multi uc cfg st p = sw_generate_multi uc cfg st q.
+Proof. only_items. Qed.
+Lemma go_multi_reads_items uc cfg st : forall p q, same_items p q -> go_generate_multi uc cfg st p = go_generate_multi uc cfg st q.
+Proof. only_items. Qed.
+Lemma py_multi_reads_items uc cfg st : forall p q, same_items p q -> py_generate_multi uc cfg st p = py_generate_multi uc cfg st q.
+Proof. only_items. Qed.
+
+Theorem multi_generators_read_items (uc : unicode) :
+  (forall cfg, reads_items (fun st (_ : str) im pd => ts_generate_multi uc cfg st im pd)) /\
+  (forall cfg, reads_items (fun (st : unit) c im pd => match kt_generate_multi uc cfg c im pd with
+                                                       | Ok text => Ok (text, st) | Err e => Err e | Panic s => Panic s end)) /\
+  (forall cfg, reads_items (fun st (_ : str) (_ : scoped) pd => sw_generate_multi uc cfg st pd)) /\
+  (forall cfg, reads_items (fun (st : unit) (_ : str) (_ : scoped) pd => match sc_generate uc cfg pd with
+                                                                         | Ok text => Ok (text, st) | Err e => Err e | Panic s => Panic s end)) /\
+  (forall cfg, reads_items (fun st (_ : str) (_ : scoped) pd => go_generate_multi uc cfg st pd)) /\
+  (forall cfg, reads_items (fun st (_ : str) (_ : scoped) pd => py_generate_multi uc cfg st pd)).
+Proof.
+  repeat split; intros cfg st c im p q H; cbn beta.
+  - now apply ts_multi_reads_items.
+  - now rewrite (kt_multi_reads_items uc cfg c im p q H).
+  - now apply sw_multi_reads_items.
+  - now rewrite (sc_reads_items uc cfg p q H).
+  - now apply go_multi_reads_items.
+  - now apply py_multi_reads_items.
+Qed.
+
+(* the whole run: crates, plan, generated files *)
+Theorem multi_hash_order_irrelevant (lang : lang) l1 l2 ho1 ho2 (hc1 hc2 : crate_types -> crate_types) :
+  Permutation l1 l2 -> all_distinct (collect l1) -> ws_ambiguity (collect l1) = None ->
+  oracle_ok ho1 -> oracle_ok ho2 -> oracle_ok hc1 -> oracle_ok hc2 ->
+  cs_same (multi_crates ho1 l1) (multi_crates ho2 l2) /\
+  Forall2 plan_same (multi_plan lang hc1 (multi_crates ho1 l1)) (multi_plan lang hc2 (multi_crates ho2 l2)) /\
+  (forall (St : Type) (gen : St -> str -> scoped -> parsed -> outcome (str * St)), reads_items gen ->
+     forall st, generate_crates gen st (multi_plan lang hc1 (multi_crates ho1 l1)) =
+                generate_crates gen st (multi_plan lang hc2 (multi_crates ho2 l2))).
+Proof.
+  intros HP HD HA Ho1 Ho2 Hc1 Hc2.
+  pose proof (multi_plan_same lang l1 l2 ho1 ho2 hc1 hc2 HP HD HA Ho1 Ho2 Hc1 Hc2) as HPl.
+  split; [apply multi_crates_same; auto; now apply ws_ambiguity_rename|]. split; [exact HPl|].
+  intros St gen Hr st. now apply generate_crates_same.
+Qed.
+
+(* ---------- the hypotheses are decidable: boolean forms (used to evaluate them on concrete workspaces) ---------- *)
+Fixpoint nodup_b (l : list str) : bool :=
+  match l with [] => true | x :: r => negb (mem_str x r) && nodup_b r end.
+Lemma nodup_b_ok l : nodup_b l = true -> NoDup l.
+Proof.
+  induction l as [|x r IH]; intros H; [constructor|]. cbn [nodup_b] in H. apply andb_true_iff in H as [H1 H2].
+  constructor; [|now apply IH]. apply negb_true_iff in H1. now apply mem_str_notin.
+Qed.
+Definition names_distinct_b (pd : parsed) : bool :=
+  nodup_b (map (fun s => original (sid s)) (p_structs pd)) && nodup_b (map (fun e => original (eid (enum_shared e))) (p_enums pd)) &&
+  nodup_b (map (fun a => original (aid a)) (p_aliases pd)) && nodup_b (map (fun c => original (cid c)) (p_consts pd)).
+Definition all_distinct_b (cs : crates) : bool := forallb (fun c => names_distinct_b (snd c)) cs.
+Lemma all_distinct_b_ok cs : all_distinct_b cs = true -> all_distinct cs.
+Proof.
+  unfold all_distinct_b. rewrite forallb_forall. intros H c pd Hin. specialize (H (c, pd) Hin). cbn [snd] in H.
+  unfold names_distinct_b in H. apply andb_true_iff in H as [H H4]. apply andb_true_iff in H as [H H3]. apply andb_true_iff in H as [H1 H2].
+  repeat split; now apply nodup_b_ok.
+Qed.
